@@ -31,7 +31,7 @@ Section NFA.
   Definition stepN (S : list nat) (k : kind) : list nat := norm (flat_map (fun s => targets s k) S).
   (* end state: the target of the #EOF tests, not itself a state of the table *)
   Definition is_end (S : list nat) : bool :=
-    match S with [s] => match find_state s with None => true | Some _ => false end | _ => false end.
+    existsb (fun s => match find_state s with None => true | Some _ => false end) S.
   Fixpoint runN (S : list nat) (w : list kind) : bool :=
     match w with
     | [] => is_end S
